@@ -305,6 +305,23 @@ class SpecMixin:
             return st.ghost[('ghostvar', name)]
         raise Unsupported('spec: unknown name %r (contract does not bind)' % name)
 
+    def spec_sel_on(self, env, x, name):
+        tid = x.etid
+        for f in self.tt.fields(tid):
+            if f['n'] == name:
+                return self.load_field(env.st, x, self.tt.name(tid), name, f['t'])
+        for f in self.tt.fields(tid):
+            if f.get('emb'):
+                inner = self.load_field(env.st, x, self.tt.name(tid), f['n'], f['t'])
+                if isinstance(inner, PtrV):
+                    try:
+                        return self.spec_sel_on(env, inner, name)
+                    except Unsupported:
+                        continue
+                if isinstance(inner, StructV) and name in inner.fields:
+                    return inner.fields[name]
+        raise Unsupported('spec: no field %s' % name)
+
     def spec_sel(self, env, e):
         # package-qualified constant?  else field access
         x = self.sev(env, e[1])
@@ -314,6 +331,16 @@ class SpecMixin:
             for f in self.tt.fields(tid):
                 if f['n'] == name:
                     return self.load_field(env.st, x, self.tt.name(tid), name, f['t'])
+            for f in self.tt.fields(tid):            # promoted through an embedded struct or pointer to struct
+                if f.get('emb'):
+                    inner = self.load_field(env.st, x, self.tt.name(tid), f['n'], f['t'])
+                    try:
+                        if isinstance(inner, PtrV) and any(g['n'] == name or g.get('emb') for g in self.tt.fields(inner.etid)):
+                            return self.spec_sel_on(env, inner, name)
+                        if isinstance(inner, StructV) and name in inner.fields:
+                            return inner.fields[name]
+                    except Unsupported:
+                        continue
             raise Unsupported('spec: no field %s' % name)
         if isinstance(x, StructV):
             if name in x.fields:
@@ -530,6 +557,11 @@ class SpecMixin:
         if name == 'freshobj':     # the array was allocated by this call
             x = self.sev(env, args[0])
             return z3.BoolVal(bool(getattr(x, 'isfresh', False)))
+        if name == 'boxed':        # boxed(x): the value an interface value was made from (known when the boxing happened in this function)
+            x = self.sev(env, args[0])
+            if isinstance(x, IfaceV) and getattr(x, 'concrete', None) is not None:
+                return x.concrete
+            raise Unsupported('boxed(): the concrete value of the interface is not known here')
         if name == 'typeis':       # typeis(x, "T"): the dynamic type of the interface value x is T (as printed by go/types)
             x = self.sev(env, args[0])
             tn = args[1][1].decode() if isinstance(args[1][1], bytes) else args[1][1]
